@@ -249,7 +249,7 @@ package revocation
 //@   loop 0 invariant 0 <= $i && $i <= len(el.Events) && len(el.Events) == len(c.E) && (len(c.E) > 0 ==> fresh(el.Events)) && (el.ComputeProduct ==> el.product != nil && fresh(el.product))
 //@   loop 0 invariant forall j in 0..$i :: el.Events[j] != nil && fresh(el.Events[j]) && el.Events[j].E == c.E[j] && el.Events[j].Index == wrapU64(j + c.Index)
 //@   loop 0 invariant ($i > 0 ==> el.Events[0].ParentHash == c.ParentHash) && forall j in 1..$i :: hasheq(el.Events[j-1], el.Events[j].ParentHash)
-//@   loop 0 modifies elems(el.Events), onlyfresh("BV"), onlyfresh("revocation.Event")
+//@   loop 0 modifies elems(el.Events), funcfresh("BV"), onlyfresh("revocation.Event")
 
 //@ # ---- prover side of the non-revocation proof (C04: what a disclosure proof carries) ----
 //@ func (*ProofCommit).BuildProof
